@@ -1,11 +1,32 @@
 (* C11 — session registry: at most one live connection per terminal key.
    Only statements here; every proof is `exact <lemma of Proofs/Registry_proofs>`.
 
-   [reachable s]: s is the state after SOME schedule — any list of accepts, first messages
-   (joins), invalid-key messages, later messages, connection ends and SendActiveMessage calls of
-   any number of connections and callers, in any interleaving (operations that a connection's
-   program order does not allow at that point are skipped by [run]) — in which KeyFunc never
-   yields the empty string (the default KeyFunc cannot: Bcd2Dec of a phone field is never ""). *)
+   WHAT IS QUANTIFIED.  [reachable s]: s is the state after ANY schedule — any list of accepts, first
+   messages (joins) with any key INCLUDING the empty string, invalid-key messages, later messages,
+   connection ends and SendActiveMessage calls of any number of connections and callers, in any order
+   (operations that a connection's program order does not allow at that point are skipped by [run]).
+   There is no hypothesis on KeyFunc any more: since fix 8f7d690 a connection that never joined does not
+   call leave, so the empty key is a key like any other ([C11_empty_key_kept]; what the code did before
+   is recorded by [C11_refuted_empty_key_before_fix]).
+
+   WHICH INTERLEAVINGS.  The model has one atomic step per MANAGER OPERATION (join / leave / write closure)
+   and the schedules are all orders in which the operations of all connections and callers reach the
+   manager, each connection's own operations in its program order (at most one successful join, refused ->
+   only the end, leave last and once).  That covers every interleaving of the per-connection goroutines, the
+   manager goroutine and the caller goroutines AS FAR AS THE REGISTRY CAN TELL, because of two facts about the
+   code which are not theorems of this file:
+     (a) the map `record` is a local variable of sessionManager.run and is touched only by the closures that
+         run() executes one at a time, in the order of operationFuncChan — run() is the only manager root and
+         the closures sent through operationFuncChan are the only other code of its goroutine class: that is
+         C18's root table / call graph tie (Model/Race.v root_table: sessionManager.run, join$1, leave$1,
+         write$1 = manager; `spawn New sessionManager.run` is the only go statement that starts it; every
+         `session` field site is judged "manager"), re-checked against the source on every run of C18, and
+         C18_registry_is_the_managers on the model side;
+     (b) join, leave and write block their caller until the closure has run (the unbuffered ch / replyChan),
+         so a connection's operations reach the manager in its program order.
+   What happens INSIDE a connection between two manager operations (reader/writer/timer steps, the socket
+   write of a routed command) is outside this model: C12/C13 (writer, teardown) and C18 (races) cover it.
+   [ORouted i c] means: handed to connection c's activeMsgChan inside the manager step. *)
 From Coq Require Import List NArith.
 From JT.Base Require Import Sched.
 From JT.Model Require Import Registry.
@@ -33,7 +54,7 @@ Theorem C11_refused_leaves_first_alone : forall s, reachable s -> forall c c' k,
   exists s1 s2,
     step s (FirstMsg c' k) = Some (s1, [OJoin c' k 1]) /\ reg s1 = reg s /\ owner s1 c k /\
     step s1 (Stop c') = Some (s2, [OLeave c' 0]) /\
-    (forall k', lookup k' (reg s2) = lookup k' (reg s)) /\ owner s2 c k.
+    reg s2 = reg s /\ owner s2 c k.
 Proof. exact refused_leaves_first_alone. Qed.
 Print Assumptions C11_refused_leaves_first_alone.
 
@@ -45,6 +66,7 @@ Theorem C11_leave_frees_only_own_key : forall s, reachable s -> forall c cs,
     step s (Stop c) = Some (s1, [OLeave c (ckey cs)]) /\
     (forall k, cs = CJoined k -> lookup k (reg s1) = None) /\
     (forall k', cs <> CJoined k' -> lookup k' (reg s1) = lookup k' (reg s)) /\
+    ((forall k, cs <> CJoined k) -> reg s1 = reg s) /\
     (forall c' k', c' <> c -> (owner s1 c' k' <-> owner s c' k')).
 Proof. exact leave_frees_only_own_key. Qed.
 Print Assumptions C11_leave_frees_only_own_key.
@@ -74,7 +96,6 @@ Print Assumptions C11_routing.
    connection, timer or caller does later is needed for it), and the call changes neither the registry nor
    any connection *)
 Theorem C11_not_online_at_once : forall sched1 sched2 k,
-  Forall nonempty_key sched1 ->
   (forall c, ~ owner (final step init sched1) c k) ->
   trace step init (sched1 ++ Send k :: sched2) =
     trace step init sched1 ++
@@ -109,25 +130,50 @@ Theorem C11_callbacks_complete : forall sched c,
 Proof. exact callbacks_complete. Qed.
 Print Assumptions C11_callbacks_complete.
 
-(* the hypothesis on KeyFunc is needed: with the empty key a connection that never joined evicts
-   the owner of "" from the registry when it ends (the owner stays connected but unreachable) *)
-Theorem C11_refuted_empty_key :
-  let s := final step init [Connect; Connect; FirstMsg 0%nat 0; Stop 1%nat] in
-  nth_error (conns s) 0%nat = Some (CJoined 0) /\ lookup 0 (reg s) = None.
-Proof. exact empty_key_evicts. Qed.
-Print Assumptions C11_refuted_empty_key.
+(* a refused connection can do exactly one thing, end: every other operation on it is disabled, its end
+   announces leave("") and leaves the registry as it is (that it DOES end - the reader returns, the server
+   closes the socket - is not expressible here: the model has no socket; the harness checks it) *)
+Theorem C11_refused_only_stops : forall s c ch s' o,
+  nth_error (conns s) c = Some CRefused -> targets ch c -> step s ch = Some (s', o) ->
+  ch = Stop c /\ o = [OLeave c 0] /\ reg s' = reg s.
+Proof. exact refused_only_stops. Qed.
+Print Assumptions C11_refused_only_stops.
 
-(* non-vacuity: a schedule with a duplicate-key connect, a leave and a re-join is [reachable]
-   and shows every clause on concrete values *)
+(* the empty key is a key like any other: a connection that never joined ends without touching the owner
+   of "" ... *)
+Theorem C11_empty_key_kept :
+  let s := final step init [Connect; Connect; FirstMsg 0%nat 0; Stop 1%nat] in
+  nth_error (conns s) 0%nat = Some (CJoined 0) /\ lookup 0 (reg s) = Some 0%nat.
+Proof. exact empty_key_kept. Qed.
+Print Assumptions C11_empty_key_kept.
+
+(* ... which the code before fix 8f7d690 did not guarantee ([step_before_fix]: every ending connection
+   called leave(c.key), a never-joined one leave("")): the owner of "" stayed connected but unreachable.
+   Reproduced on the real code with a KeyFunc yielding "" (known_findings.json, fixed) *)
+Theorem C11_refuted_empty_key_before_fix :
+  let s := final step_before_fix init [Connect; Connect; FirstMsg 0%nat 0; Stop 1%nat] in
+  nth_error (conns s) 0%nat = Some (CJoined 0) /\ lookup 0 (reg s) = None.
+Proof. exact empty_key_evicted_before_fix. Qed.
+Print Assumptions C11_refuted_empty_key_before_fix.
+
+(* non-vacuity: a schedule with two keys (one of them the empty key), a duplicate-key connect, an
+   invalid-key message, a later message, a leave while another key is held, a re-join and sends is
+   [reachable]; its observations, clause by clause *)
 Example C11_reachable_example :
-  let sched := [Connect; Connect; FirstMsg 0%nat 7; FirstMsg 1%nat 7; Send 7; Stop 1%nat; Stop 0%nat;
-                Connect; FirstMsg 2%nat 7; Send 7; Send 8] in
+  let sched := [Connect; Connect; Connect; FirstMsg 0%nat 7; BadKeyMsg 2%nat; FirstMsg 2%nat 0; FirstMsg 1%nat 7; Send 7; Msg 0%nat;
+                Stop 1%nat; Send 0; Stop 0%nat; Send 0; Connect; FirstMsg 3%nat 7; Send 7; Send 8; Stop 2%nat; Send 0] in
   reachable (final step init sched) /\
   trace step init sched =
-    [OJoin 0%nat 7 0; OJoin 1%nat 7 1; ORouted 0 0%nat; OLeave 1%nat 0; OLeave 0%nat 7;
-     OJoin 2%nat 7 0; ORouted 1 2%nat; ONotExist 2].
+    [OJoin 0%nat 7 0; OJoin 2%nat 0 2; OJoin 2%nat 0 0; OJoin 1%nat 7 1; ORouted 0 0%nat; OLeave 1%nat 0; ORouted 1 2%nat;
+     OLeave 0%nat 7; ORouted 2 2%nat; OJoin 3%nat 7 0; ORouted 3 3%nat; ONotExist 4; OLeave 2%nat 0; ONotExist 5].
 Proof.
   split; [|vm_compute; reflexivity].
-  eexists; split; [|reflexivity].
-  repeat constructor; discriminate.
+  eexists; reflexivity.
 Qed.
+
+(* the hypotheses of C11_refused_leaves_first_alone / C11_rejoin_after_leave (an owner and a fresh
+   connection) hold together in a reachable state *)
+Example C11_owner_and_new_example :
+  let s := final step init [Connect; Connect; FirstMsg 0%nat 7] in
+  reachable s /\ owner s 0%nat 7 /\ nth_error (conns s) 1%nat = Some CNew.
+Proof. split; [eexists; reflexivity | vm_compute; auto]. Qed.
